@@ -1,5 +1,8 @@
 import PsecModel.Model.Des
 import PsecModel.Lemmas.Cbc
+import PsecModel.Lemmas.RefLawful
+import PsecModel.Cipher.VectorsAes
+import PsecModel.Cipher.VectorsDes
 /-!
 # C19 — TDES/AES ECB and CBC wrappers are exact, length-preserving inverses
 
@@ -228,5 +231,20 @@ theorem kcv_spec (c : Ciphers) (key : Bytes) (n : Nat) :
 example : (⟨fun _ b => b, fun _ b => b, fun _ b => b, fun _ b => b⟩ : Ciphers).Lawful :=
   ⟨fun _ _ _ _ => rfl, fun _ _ _ _ => rfl, fun _ _ _ h => h, fun _ _ _ h => h,
    fun _ _ _ _ => rfl, fun _ _ _ _ => rfl, fun _ _ _ h => h, fun _ _ _ h => h⟩
+
+/-- **the hypothesis is not only satisfiable, it holds for the reference ciphers** the driver executes the model with
+(Feistel involution + `IP`/`FP` inverse for TDES; S-box, ShiftRows, MixColumns inverses + key-expansion shape for AES), so
+every `(hc)` theorem of C01, C02, C04, C12, C13, C14 and C19 holds unconditionally for the model as run in the
+correspondence check -/
+theorem ref_lawful : refCiphers.Lawful := refCiphers_lawful
+
+theorem ref_tdes_cbc_dec_enc (key iv data : Bytes) (hk : tdesKeyOk key = true) (hiv : iv.length = 8) (hd : DataOk 8 data) :
+    ∃ ct, Des.encryptTdesCbc refCiphers key iv data = .ok ct ∧ ct.length = data.length ∧
+      Des.decryptTdesCbc refCiphers key iv ct = .ok data :=
+  tdes_cbc_dec_enc refCiphers ref_lawful key iv data hk hiv hd
+theorem ref_aes_cbc_dec_enc (key iv data : Bytes) (hk : aesKeyOk key = true) (hiv : iv.length = 16) (hd : DataOk 16 data) :
+    ∃ ct, Aes.encryptAesCbc refCiphers key iv data = .ok ct ∧ ct.length = data.length ∧
+      Aes.decryptAesCbc refCiphers key iv ct = .ok data :=
+  aes_cbc_dec_enc refCiphers ref_lawful key iv data hk hiv hd
 
 end Psec.Props.C19
